@@ -138,7 +138,7 @@ func (e *Events) computeAll() {
 								continue
 							}
 						}
-						if cal := com.StaticCallee(); cal != nil && e.c.InScope(cal) && !e.accessors[cal] && !core.IsLogCall(com) {
+						if cal := e.c.ResolvedCallee(com); cal != nil && e.c.InScope(cal) && !e.accessors[cal] && !core.IsLogCall(com) {
 							for k := range e.memo[cal] {
 								add(k)
 							}
@@ -164,7 +164,7 @@ func (e *Events) SiteReach(ci ssa.CallInstruction) evset {
 			return s
 		}
 	}
-	if cal := com.StaticCallee(); cal != nil && e.c.InScope(cal) && !core.IsLogCall(com) {
+	if cal := e.c.ResolvedCallee(com); cal != nil && e.c.InScope(cal) && !core.IsLogCall(com) {
 		for k := range e.Reach(cal) {
 			s[k] = true
 		}
